@@ -626,7 +626,11 @@ fn specs() -> Vec<SettingsSpec> {
     let mut c = SettingsSpec::faithful();
     c.substitutes.push(("p::a::N".into(), "::ext::NN".into()));
     c.substitutes.push(("p::a::H<T>".into(), "::ext::HH<T>".into()));
-    vec![a, b, c]
+    // the types module is called like the FIRST segment of every type's own path (named after the crate the types
+    // come from): the literal's path still starts with the module, then the whole path
+    let mut d = SettingsSpec::faithful();
+    d.root = "p".into();
+    vec![a, b, c, d]
 }
 
 pub fn worker_check(state: &Json, ctx: &mut Ctx) {
